@@ -229,7 +229,7 @@ int main(int argc, char** argv) {
   mkdir(g_root.c_str(), 0755);
   g_root += "/p" + std::to_string(long(getpid()));   // private to this process (the name never reaches an oracle: paths are normalised)
   mkdir(g_root.c_str(), 0755);
-  atexit([] { rm_rf(g_root); });
+  atexit([] { if (!vsim::in_forked_child()) rm_rf(g_root); });
   // the one-off registration of mfront's DSLs and interfaces happens here, outside any simulated run: no run then depends on
   // whether it is the first one of its process
   mfront::verifInitDSLsOnce(); mfront::verifInitInterfacesOnce();
